@@ -21,7 +21,7 @@ FUNCTIONS_ENCODED = ['pgpy.types.MetaDispatchable.__call__', 'pgpy.packet.types.
                      'pgpy.packet.subpackets.userattribute.Image.parse/__bytearray__']
 STUBS = []
 OUTSIDE = ['compressed data packets (zlib/bz2 are C code)', 'creation / modification times other than the fixed values used', 'multiprecision integers above 2^32 (2^17 for RSA e)',
-           'bodies longer than a few symbolic octets', 'v3 keys and signatures', 'in-place mutation of parsed objects (protect, edited user id) - see C06/C15']
+           'bodies longer than a few symbolic octets', 'v3 keys and signatures', 'in-place mutation other than an edited user id (O8.grow): protect is C06, added subpackets C02/C15']
 ASSUMPTIONS = ['"well-formed" foreign packets: the body has exactly the fields RFC 4880 gives the packet, nothing after them']
 
 TRAIL = b'\xC0\xFF\xEE'
@@ -424,7 +424,74 @@ def fp_len2(kind: int, b0: int, b1: int) -> bool:
     return fixed_point(pack(40, bytes([b0, b1]) + fill, 1), must_accept=True)
 
 
-SANITY = ['fp_userid(0, 3, 1, 1, 1)', 'fp_userid(5, 2, 13, 7, 0)', 'fp_userid(3, 0, 0, 0, 0)', 'fp_userid(0, 2, 7, 3, 0)', 'fp_literal(0, 0x62, b"ab", False, b"xy")', 'fp_literal(2, 0x74, b"", True, b"")',
+BIG = bytes((i * 13 + 7) % 251 for i in range(2 ** 17 + 64))
+
+
+@ob('O8.partial', 'new-format partial body lengths from streaming producers: a literal packet sent as one partial chunk of 2^e octets plus a final short part imports with the '
+                  'right content, consumes exactly its octets, and re-serialises to a definite-length fixed point',
+    'chunk exponent e in {0,1,2,3,9,15,16,17}; final part of 0..2 octets; first content octet symbolic', cond_timeout={'q': 280, 't': 600})
+def fp_partial(ei: int, last: int, x: int) -> bool:
+    """
+    pre: 0 <= ei < 8
+    pre: 0 <= last <= 2
+    pre: 0 <= x < 256
+    post: _
+    """
+    e = 0
+    for k, v in enumerate((0, 1, 2, 3, 9, 15, 16, 17)):
+        if ei == k:
+            e = v
+    hdr6 = b'b\x00\x00\x00\x00\x00'                       # format, empty file name, time 0
+    content = bytes([x]) + BIG[:2 ** e + last + 8]
+    body = hdr6 + content
+    # first chunk must hold 2^e octets of the body; the rest goes into the final definite part
+    first, rest = body[:2 ** e], body[2 ** e:2 ** e + last]
+    total = first + rest
+    raw = bytes([0xCB, 224 + e]) + first + bytes([len(rest)]) + rest
+    buf = bytearray(raw) + bytearray(TRAIL)
+    try:
+        p = Packet(buf)
+    except PGPError:
+        return len(total) < 6                               # too short to be a literal packet at all
+    if bytes(buf) != TRAIL:
+        return False
+    if len(total) >= 6 and bytes(p._contents) != total[6:]:
+        return False
+    out = bytes(p.__bytearray__())
+    sp = split_one(out)
+    if sp is None or sp[1] + sp[2] != len(out) or out[sp[1]:] != total:
+        return False
+    buf2 = bytearray(out) + bytearray(TRAIL)
+    p2 = Packet(buf2)
+    return bytes(buf2) == TRAIL and bytes(p2.__bytearray__()) == out
+
+
+@ob('O8.grow', 'in-place mutation of a parsed packet: a user id parsed from an old- or new-format packet and then edited so that its length crosses a width boundary '
+               're-serialises (after update_hlen) to a packet that consumes exactly its own length and carries the edited value',
+    'original header form in {old-1, old-2, new-1}; new length chosen by symbolic index from {190,191,192,193,254,255,256,257,8383,8384,65535,65536}', cond_timeout={'q': 280, 't': 600})
+def fp_grow(form: int, li: int) -> bool:
+    """
+    pre: form in (0, 3, 4)
+    pre: 0 <= li < 12
+    post: _
+    """
+    n = 190
+    for k, v in enumerate((190, 191, 192, 193, 254, 255, 256, 257, 8383, 8384, 65535, 65536)):
+        if li == k:
+            n = v
+    p = Packet(bytearray(pack(13, b'short', form)))
+    p.uid = 'u' * n
+    p.update_hlen()
+    out = bytes(p.__bytearray__())
+    sp = split_one(out)
+    if sp is None or sp[1] + sp[2] != len(out) or sp[2] != n:
+        return False
+    buf = bytearray(out) + bytearray(TRAIL)
+    q = Packet(buf)
+    return bytes(buf) == TRAIL and type(q) is type(p) and q.uid == p.uid and bytes(q.__bytearray__()) == out
+
+
+SANITY = ['fp_partial(0, 0, 5)', 'fp_partial(4, 2, 5)', 'fp_partial(6, 1, 255)', 'fp_partial(7, 2, 0)', 'fp_partial(3, 0, 9)'] + ['fp_grow(%d, %d)' % (f, l) for f in (0, 3, 4) for l in range(12)] + ['fp_userid(0, 3, 1, 1, 1)', 'fp_userid(5, 2, 13, 7, 0)', 'fp_userid(3, 0, 0, 0, 0)', 'fp_userid(0, 2, 7, 3, 0)', 'fp_literal(0, 0x62, b"ab", False, b"xy")', 'fp_literal(2, 0x74, b"", True, b"")',
           'fp_small(0, 0, b"PGP")', 'fp_small(1, 3, b"\\x00\\x05")', 'fp_small(2, 0, b"abc")', 'fp_small(3, 2, b"\\x01\\x02")', 'fp_small(4, 0, b"")',
           'fp_opaque(0, 0, b"a")', 'fp_opaque(7, 2, b"\\x09ab")', 'fp_opaque(13, 0, b"\\xc8a")', 'fp_skesk(0, 3, 2, True, 1, 2, 96, b"")', 'fp_skesk(3, 0, 0, False, 0, 0, 0, b"ab")',
           'fp_skesk(0, 1, 1, True, 255, 0, 0, b"a")', 'fp_pkesk(0, 1, 2, 16, 0x80, 5)', 'fp_pkesk(3, 0, 0, 9, 1, 7)', 'fp_pkesk(0, 0, 0, 8, 0x80, 0)',
